@@ -394,11 +394,11 @@ func pieceRange(p SV, assume []string) piece {
 }
 
 type codecSpec struct {
-	pkg, typ     string
-	parse, ser   string
-	minC, maxC   string // constants of the package (names) or literal numbers; maxC "" = unbounded
-	fixed        bool
-	extraLens    []int64
+	pkg, typ   string
+	parse, ser string
+	minC, maxC string // constants of the package (names) or literal numbers; maxC "" = unbounded
+	fixed      bool
+	extraLens  []int64
 }
 
 func constByName(c *Ctx, pkg, name string) (int64, bool) {
@@ -564,7 +564,6 @@ func evalCodecRoundTrip(c *Ctx, r *Report, rule string, sp codecSpec) {
 	}
 	r.check(len(problems) == 0 && roundTrips > 0, rule, pname, "layout round trip", c.pos(pf.Pos()), fmt.Sprintf("%d lengths tried: %d accepted, %d rejected, %d parse/serialise paths reproduce src byte for byte", len(lens), accepted, rejected, roundTrips), strings.Join(dedup(problems), "\n"))
 }
-
 
 // defaultDigestSize resolves modules/l4openvpn.AuthDigestDefault.Size from the source: the name literal
 // passed to AuthDigestFindByName in the variable's initialiser is looked up in the digest table literal.
